@@ -205,7 +205,9 @@ def _ser_scale_episodes(g):
         conts = {"B": "B:32768:5555555555555555*1024", "A": "A:1,5,9,300", "R": "R:10+90,1000+5"}
         for entry in ("readfrom", "unmarshal", "base64", "readpipe", "frombuffer"):
             o, wk = g.fresh("wc"), g.fresh("wc")
-            g.emit("mkrepr %s cow=1;%s" % (o, ";".join("%d:%s" % (3 + 2 * i, conts[k]) for i, k in enumerate(kinds))))
+            pats = ["5555555555555555", "aaaaaaaaaaaaaaaa", "3333333333333333", "cccccccccccccccc"]     # every chunk different
+            g.emit("mkrepr %s cow=1;%s" % (o, ";".join("%d:%s" % (3 + 2 * i, conts[k].replace("5555555555555555", pats[i]).replace("A:1,5,9,300", "A:%d,5,9,300" % (i + 1)).replace("R:10+90", "R:%d+90" % (10 + i)))
+                                                        for i, k in enumerate(kinds))))
             g.emit("clone %s %s" % (wk, o))
             g.emit("remr %s %d %d" % (wk, 3 * 65536, 4 * 65536))        # the working copy loses its first chunk
             g.emit("add %s %d" % (wk, 7 * 65536 + 77))
